@@ -238,6 +238,7 @@ pub fn default_sched(rng: &mut Rng) -> Sched {
 	s.proc_ms = (1, [2u64, 300, 5_000][rng.below(3) as usize]);
 	s.zero_yield = rng.chance(1, 2);
 	s.map_salt = rng.next_u64();
+	s.lock_starved = rng.chance(1, 3);
 	s.chunk = match rng.below(3) {
 		0 => (1 << 20, 1 << 20),
 		1 => (64, 4096),
